@@ -302,8 +302,8 @@ class Evaluator(object):
             t = self.ev(st.value, env) if st.value is not None else tm.none()
             if self.inline_frames:
                 fr = self.inline_frames[-1]
-                if self.loopstack and len(self.loopstack) > fr.loop_depth:
-                    fr.failed = True  # a return from inside a loop of the helper: not modelled
+                if [c_ for c_ in self.loopstack[fr.loop_depth :] if not getattr(c_, "unrolled", False)]:
+                    fr.failed = True  # a return from inside a (real) loop of the helper: not modelled
                 fr.returns.append((t, self.pc))
                 fr.return_envs.append(dict(env))
                 return None
@@ -626,6 +626,20 @@ class Evaluator(object):
             wh = tm.call(tm.ext("np.where"), (it.a[1][0],))
             self.site("call", st.iter, callee="np.where", fn=tm.ext("np.where"), base=None, args=(it.a[1][0],), kw=(), term=wh, via_filter=False, method=None)
             it = tm.call(tm.mk("builtin", "zip"), (tm.mk("star", wh),))
+        if it.op == "comp" and it.a[0] in ("gen", "list") and len(it.a[2]) == 2 and not it.a[3] and not st.orelse:
+            # for x in (x for xs in (A, B) for x in xs): the flattened generator is the nested loops it abbreviates
+            it1, it2 = it.a[2]
+            cid = it.a[4]
+            elems = self._unroll_elements(it1) if UNROLL else None
+            if elems is not None and it.a[1] is tm.mk("iter", it2, cid) and not any(isinstance(n, ast.Break) for n in _own_loop_nodes(st)):
+                el1 = tm.mk("iter", it1, cid)
+                cur = env
+                for e in elems:
+                    it2e = tm.rebuild(it2, lambda z: e if z is el1 else None)
+                    cur = self._for_core(st, cur, it2e, None)
+                    if cur is None:
+                        return None
+                return cur
         if isinstance(st.target, ast.Name):
             rw = self._row_iteration(it, "L%d" % (self.nloops + 1))
             if rw is not None:
@@ -994,11 +1008,29 @@ class Evaluator(object):
         if not env:
             return None
         t = env.get(name)
+        ok = False
         if t is not None and t.op == "tuple" and name not in _rebound_globals(self.P.modules[modname]):
-            return t  # a tuple cannot be changed in place, wherever it travels
+            ok = True  # a tuple cannot be changed in place, wherever it travels
         if t is not None and t.op in ("list", "dict", "set") and name not in _mutated_globals(self.P.modules[modname]):
+            ok = True
+        if not ok:
+            return None
+        # read the display as a function body would: names of the reference inventory stay named (glob / func terms)
+        mod = self.P.modules[modname]
+        node = mod.const_nodes.get(name)
+        depth = getattr(self, "_table_depth", 0)
+        if node is None or depth > 4:
             return t
-        return None
+        saved_module, saved_closure, saved_pc, n_sites = self.module, self.closure, self.pc, len(self.summary.sites)
+        self.module, self.closure, self._table_depth = mod, {}, depth + 1
+        try:
+            t2 = self.ev(node, {})
+        except AnalysisError:
+            t2 = None
+        finally:
+            self.module, self.closure, self.pc, self._table_depth = saved_module, saved_closure, saved_pc, depth
+            del self.summary.sites[n_sites:]
+        return t2 if t2 is not None and t2.op == t.op else t
 
     def ev_Attribute(self, node, env):
         base = self.ev(node.value, env)
